@@ -8,6 +8,7 @@ import (
 	"path/filepath"
 	"reflect"
 	"sort"
+	"strconv"
 	"strings"
 	"time"
 
@@ -99,11 +100,16 @@ func (watchStream) Generate(rng *rand.Rand, tier string, emit func(Case)) {
 		{"lock", "rmdir@1", "mkdir@1", "writeInPlace@1", "unlock", "pause", "rmdir@1", "writeInPlace@0"},
 		{"lock", "rmdir@0", "mkdir@0", "writeInPlace@0", "unlock", "pause", "rewrite@0"},
 		{"rmdir@0", "rmdir@1", "pause", "mkdir@1", "pause", "writeViaTemp@1", "mkdir@0", "linkInOld@0"},
+		// the higher-priority directory goes away and comes back with a Spec overriding a device that still resolves
+		{"writeInPlace@0", "writeInPlace@1", "pause", "rmdir@1", "pause", "mkdir@1", "writeInPlace@1"},
+		{"writeInPlace@0", "rmdir@1", "pause", "lock", "mkdir@1", "moveIn@1", "unlock"},
+		{"writeInPlace@0", "pause", "rmdir@1", "pause", "mkdir@1", "writeViaTemp@1", "pause", "rewrite@0"},
 	}
 	for _, h := range multiFixed {
 		for _, pacing := range []string{"burst", "sleep"} {
 			emit(Case{"op": "history", "ops": strs2any(h), "dirAtStart": true, "pacing": pacing, "ndirs": 2})
 		}
+		emit(Case{"op": "history", "ops": strs2any(h), "dirAtStart": true, "pacing": "yield", "ndirs": 2, "observe": "inject"})
 	}
 	nm := 12
 	if tier == "thorough" {
@@ -135,7 +141,11 @@ func (watchStream) Generate(rng *rand.Rand, tier string, emit func(Case)) {
 		if locked {
 			h = append(h, "unlock")
 		}
-		emit(Case{"op": "history", "ops": strs2any(h), "dirAtStart": rng.Intn(3) > 0, "pacing": []string{"burst", "yield", "sleep"}[rng.Intn(3)], "ndirs": nd})
+		mc := Case{"op": "history", "ops": strs2any(h), "dirAtStart": rng.Intn(3) > 0, "pacing": []string{"burst", "yield", "sleep"}[rng.Intn(3)], "ndirs": nd}
+		if i%3 == 1 {
+			mc["observe"] = "inject"
+		}
+		emit(mc)
 	}
 	n := 25
 	if tier == "thorough" {
@@ -453,7 +463,16 @@ func (watchStream) Execute(c Case) {
 					applied = append(applied, op)
 				}
 			default:
-				if doFsOp(op, d, outside, &counter) {
+				// "op@i" acts on the i-th configured directory (all directories hold files of the same kind, so a
+				// later directory overrides an earlier one)
+				base, target := op, d
+				if at := strings.LastIndex(op, "@"); at >= 0 {
+					base = op[:at]
+					if i, err := strconv.Atoi(op[at+1:]); err == nil && i >= 0 && i < len(dirs) {
+						target = dirs[i]
+					}
+				}
+				if doFsOp(base, target, outside, &counter) {
 					applied = append(applied, op)
 				}
 			}
